@@ -303,6 +303,26 @@ def main(tier, seed, replay=None):
                               "data_added": sorted(map(str, (after[0] or set()) - (before[0] or set())))[:6],
                               "data_removed": sorted(map(str, (before[0] or set()) - (after[0] or set())))[:6],
                               "ont_changed": after[1] != before[1]})
+    # the shapes live in the data graph itself (no shacl_graph argument), with and without the SHACL-SHACL pre-check: the caller's one
+    # graph object plays both roles and is still not written to
+    for cont in ("Graph", "Dataset", "ConjunctiveGraph"):
+        for inf in ("none", "rdfs", "owlrl", "both"):
+            for meta_ in (False, True):
+                for adv in (False, True):
+                    data = make_data(cont, split=runs)
+                    target = data if cont == "Graph" else data.get_context(URIRef("urn:g1"))
+                    for t in shapes_graph(False, adv and "sparql"):
+                        target.add(t)
+                    before = snapshot(data)
+                    try:
+                        pyshacl.validate(data, meta_shacl=meta_, inference=inf, advanced=adv)
+                    except Exception:
+                        pass
+                    runs += 1
+                    if snapshot(data) != before:
+                        after = snapshot(data)
+                        snap_viol.append({"container": cont, "ontology": None, "inference": inf, "advanced": adv, "meta_shacl": meta_, "shapes": "inside the data graph (no shacl_graph argument)",
+                                          "api": "validate", "fault_at_effect": None, "data_added": sorted(map(str, after - before))[:6], "data_removed": sorted(map(str, before - after))[:6], "ont_changed": False})
     for d in snap_viol[:10]:
         d["what"] = "the caller's graph object holds different quads after the call (inplace was not requested)"
         rep.violation(d)
@@ -317,7 +337,7 @@ def main(tier, seed, replay=None):
     cov = F.proof_coverage(ob, ["translator/t1.py + translator/py2mini.py (fail-closed Python-ast -> PyMini)", "coq/Mini/PyMini.v semantics and callee summaries (clone_graph, inoculate, inoculate_dataset, _run_pre_inference, apply_rules, apply_functions)"])
     cov.update({
         "evaluations": len(bodies) + runs, "distinct_nontrivial": len({tuple(m[3]) for m in meta if m[3]}) + runs,
-        "rule": "(1) Tie A: for sampled valuations of the 1280-element domain x {validate, shacl_rules} x {no fault, fault at effect 0-3} the real Validator/RuleExpandRunner runs with recording wrappers around the white-listed callees and the recorded Clone/Write/Reg/Raised trace must equal the trace of the generated PyMini program; (2) the property on the real code: {Graph, Dataset, ConjunctiveGraph} x {no ontology, Graph, Dataset, empty Graph, empty Dataset} x {none, rdfs, owlrl, both} x advanced x iterate_rules x {validate, shacl_rules} x {normal return, failure injected after the k-th effect} x rule sets {triple + SPARQL rule, only SPARQL rules, only triple rules}, quad-level snapshot of the caller's objects before/after; non-trivial = a run in which a writer ran",
+        "rule": "(1) Tie A: for sampled valuations of the 1280-element domain x {validate, shacl_rules} x {no fault, fault at effect 0-3} the real Validator/RuleExpandRunner runs with recording wrappers around the white-listed callees and the recorded Clone/Write/Reg/Raised trace must equal the trace of the generated PyMini program; (2) the property on the real code: {Graph, Dataset, ConjunctiveGraph} x {no ontology, Graph, Dataset, empty Graph, empty Dataset} x {none, rdfs, owlrl, both} x advanced x iterate_rules x {validate, shacl_rules} x {normal return, failure injected after the k-th effect} x rule sets {triple + SPARQL rule, only SPARQL rules, only triple rules}, plus shapes kept inside the data graph (no shacl_graph argument) x meta_shacl on/off x inference x advanced, quad-level snapshot of the caller's objects before/after; non-trivial = a run in which a writer ran",
         "distribution": {"tie_a_traces": len(bodies), "tie_a_disagreements": len(failed), "snapshot_runs": runs, "snapshot_violations": len(snap_viol),
                          "distinct_traces": len({tuple(m[3]) for m in meta})},
         "samples": [{"api": m[0], "valuation": m[1], "fault": m[2], "recorded": m[3]} for m in meta[:3]],
